@@ -191,6 +191,9 @@ def run():
                 ck.event("real-run history prefix compared with reference")
                 for key, what in bad:
                     ck.violation(key, what, dict(real_run=h["cfg"], prefix=k, beta=beta))
+    if not ck.quick:
+        from tvf.contracts_run import run_suite_with_contracts
+        run_suite_with_contracts(ck, ['compute_logw_and_logz'])
     ck.tables["worst_error_over_tolerance"] = worst
     ck.require_events("compute_logw_and_logz compared with reference", "real-run history prefix compared with reference")
     return ck.finish(
